@@ -401,19 +401,15 @@ pub fn strftime(ts: time::OffsetDateTime, fmt: &str) -> Result<String, DateForma
             // any digits above (in our case) nanosecond are always to the right and
             // always 0, not spaces, so the normal format specifiers are ignored
             'L' | 'N' => {
-                let nanos = ts.nanosecond();
+                // the nanosecond as 9 digits, of which the leading `digits` are printed
+                let nanos = format!("{:09}", ts.nanosecond());
                 let digits = padding.unwrap_or(if fmt_char == 'L' { 3 } else { 9 });
 
-                w!(
-                    output,
-                    "{:0<width$}",
-                    if digits <= 9 {
-                        nanos / 10u32.pow(9 - digits as u32)
-                    } else {
-                        nanos
-                    },
-                    width = digits
-                );
+                if digits <= 9 {
+                    output.push_str(&nanos[..digits]);
+                } else {
+                    w!(output, "{:0<width$}", nanos, width = digits);
+                }
 
                 continue;
             }
